@@ -158,7 +158,8 @@ class Symex:
     """
 
     def __init__(self, model, inline=None, hooks=None, unroll=2, max_paths=512, max_steps=200000, what="?",
-                 assume_asserts=True, isinstance_hook=None, attr_hook=None, max_depth=12, cut_loops=False):
+                 assume_asserts=True, isinstance_hook=None, attr_hook=None, max_depth=12, cut_loops=False,
+                 oracle=None, occurrence=None):
         self.model = model
         self.inline = inline or (lambda q: False)
         self.hooks = dict(hooks or {})
@@ -171,6 +172,12 @@ class Symex:
         self.attr_hook = attr_hook
         self.max_depth = max_depth
         self.cut_loops = cut_loops
+        # optional model of the uninterpreted vocabulary: oracle(sx, atom) -> True | False | None decides an atom
+        # (recorded on the path, no fork); None leaves the atom to decision replay
+        self.oracle = oracle
+        # occurrence(name) -> True: results of these uninterpreted calls are tagged with the number of the call
+        # event (T("occ", term, k)), so that a value computed once and used twice is distinguishable from two calls
+        self.occurrence = occurrence
         self._modconst = {}
         self.fresh_n = 0
         self.on_start = None
@@ -260,6 +267,11 @@ class Symex:
         return bool(v)
 
     def _decide(self, c):
+        if self.occurrence is not None:
+            from .terms import strip_occ
+            c = strip_occ(c)
+            if not isinstance(c, T):
+                return bool(c)
         if c.op == "not":
             return not self.truth(c.args[0])
         if c.op == "and":
@@ -280,6 +292,10 @@ class Symex:
             pol = False
         if c in self.facts:
             d = self.facts[c]
+        elif self.oracle is not None and (r := self.oracle(self, c)) is not None:
+            d = bool(r)
+            self.facts[c] = d
+            self.path.append((c, d))
         else:
             k = len(self.decisions)
             d = self.prefix[k] if k < len(self.prefix) else True
@@ -626,6 +642,10 @@ class Symex:
 
     # ------------------------------------------------------------ expressions
     def binop(self, op, a, b, node):
+        if isinstance(a, Ext) and a.name in _SYMPY_NUM:
+            a = _SYMPY_NUM[a.name]
+        if isinstance(b, Ext) and b.name in _SYMPY_NUM:
+            b = _SYMPY_NUM[b.name]
         sa, sb = isinstance(a, T), isinstance(b, T)
         if isinstance(a, Obj):
             a, sa = a.term, True
@@ -633,6 +653,16 @@ class Symex:
             b, sb = b.term, True
         if sa or sb:
             if isinstance(op, ast.Add):
+                if isinstance(a, str) and isinstance(b, T) and b.op == "fstr" or isinstance(b, str) and isinstance(a, T) and a.op == "fstr" \
+                        or isinstance(a, T) and isinstance(b, T) and a.op == b.op == "fstr":
+                    parts = (list(a.args) if isinstance(a, T) else [a]) + (list(b.args) if isinstance(b, T) else [b])
+                    merged = []
+                    for x in parts:
+                        if isinstance(x, str) and merged and isinstance(merged[-1], str):
+                            merged[-1] += x
+                        else:
+                            merged.append(x)
+                    return T("fstr", *merged)
                 if isinstance(a, (str, list, tuple)) or isinstance(b, (str, list, tuple)):
                     return T("concat", a, b)
                 return t_add(a, b)
@@ -1082,10 +1112,15 @@ class Symex:
         v = self.getattr(recv, name, node)
         return self.call_value(v, args, kw, node)
 
+    def _occ(self, name, t):
+        if self.occurrence is not None and self.occurrence(name):
+            return T("occ", t, len(self.effects))
+        return t
+
     def opaque_mcall(self, recv, name, args, kw):
         t = T("mcall", recv, name, tuple(_freeze(a) for a in args), tuple(sorted((k, _freeze(v)) for k, v in kw.items())))
         self.effects.append(t)
-        return t
+        return self._occ(name, t)
 
     def opaque_call(self, name, args, kw, fn=None, skip_self=False):
         if fn is not None:
@@ -1097,7 +1132,7 @@ class Symex:
         else:
             t = T("call", name, tuple(_freeze(a) for a in args), tuple(sorted((k, _freeze(v)) for k, v in kw.items())))
         self.effects.append(t)
-        return t
+        return self._occ(name.split(".")[-1], t)
 
     def call_value(self, fv, args, kw, node):
         if isinstance(fv, Func):
@@ -1120,7 +1155,7 @@ class Symex:
                 t = T("mcall", b.term if isinstance(b, Obj) else b, short, (),
                       tuple((k, _freeze(v)) for k, v in self.bind(fv.node, args, kw, True, True, True).items()))
                 self.effects.append(t)
-                return t
+                return self._occ(short, t)
             return self.opaque_call(name, args, kw, fv.node)
         if isinstance(fv, ClassRef):
             for hk in (f"{fv.module.name}:{fv.qual}", fv.short):
@@ -1596,6 +1631,7 @@ _BIN = {ast.Add: operator.add, ast.Sub: operator.sub, ast.Mult: operator.mul, as
         ast.BitXor: operator.xor, ast.LShift: operator.lshift, ast.RShift: operator.rshift}
 
 _BUILTIN_CONST = {"True": True, "False": False, "None": None}
+_SYMPY_NUM = {"S.One": 1, "S.Zero": 0, "S.NegativeOne": -1, "S.Half": Fraction(1, 2)}
 
 _BUILTINS = {
     "len": len, "range": range, "int": int, "str": str, "abs": abs, "sum": sum, "list": list, "tuple": tuple,
